@@ -5,4 +5,4 @@ CONSTANTS
   QCap = 2
   MaxLoops = 8
   ExitWhenReplaced = TRUE
-INVARIANTS C11_AtMostOnce C11_InOrder C11_ExactlyOnce C11_ClosedAtMostOnce K11_Conforms C11_NoStall C11_NestedOnce
+INVARIANTS C11_NoStallReader C11_AtMostOnce C11_InOrder C11_ExactlyOnce C11_ClosedAtMostOnce K11_Conforms C11_NoStall C11_NestedOnce
